@@ -139,6 +139,15 @@ def holdsC02 (c : Info) (t : List Ev) : Bool :=
       -- and every runnable goroutine finished
       || (!c.hung && !c.late && c.liveRg == 0
           && t.all fun e => match e with | .userCall u => t.contains (.userReturn u) | _ => true))
+  -- bundled-like runnables, no shutdown timeout: at the moment Run() returns, and at the moment any Shutdown() caller
+  -- returns, every runnable whose Run was invoked has returned from it
+  && (!c.complete || !c.wb || c.hung || c.late ||
+      (List.range t.length).all fun k =>
+        match t[k]? with
+        | some (.mainReturn _) | some (.userReturn _) =>
+          (List.range c.n).all fun i =>
+            !((t.take k).contains (.runInvoke i)) || (t.take k).any fun e => match e with | .runReturn j _ => j == i | _ => false
+        | _ => true)
   -- any runnables: if every Stop() that was invoked returned, Run() returns (at the timeout at the latest)
   && (!c.complete || !(anyTrigger t) ||
       !((List.range c.n).all fun i => !(t.contains (.stopInvoke i)) || t.contains (.stopReturn i)) || !c.hung)
